@@ -56,7 +56,8 @@ def append_only(rng, maxlen):
     return toks
 
 
-FIELD_KINDS = ["func-addrspace", "func-sig", "global-addrspace", "global-contenttype", "alloca-addrspace", "alias-aliasee", "param-type"]
+FIELD_KINDS = ["func-addrspace", "func-sig", "global-addrspace", "global-contenttype", "alloca-addrspace", "alias-aliasee", "param-type", "invoke-invokee", "call-callee", "callbr-callee",
+               "add-operands", "icmp-operands", "select-operands", "phi-incoming", "extractvalue-x", "gep-src", "cast-from"]
 
 
 def gen(tier, rng, harness=None):
